@@ -5,13 +5,16 @@ From Coq Require Import List Bool Arith.
 Import ListNotations.
 
 (* what decides whether the gateway "runs as before": the protocol's message handler, the sending and
-   discovery switches, the protocol's writing flag, and the tuple that _pause() saved *)
+   discovery switches, the protocol's writing flag, the transport's reading flag (a transport that is told to
+   pause stops taking packets from its source until it is told to resume), and the tuple that _pause() saved *)
 Record eng := mkEng {
   handler : option nat;                       (* protocol._msg_handler; None = packets are dropped *)
   sending_off : bool;                         (* engine._disable_sending *)
   disc_off : bool;                            (* config.disable_discovery *)
   wr_paused : bool;                           (* protocol._pause_writing *)
-  saved : option (option nat * bool * bool)   (* engine._engine_state; None = running *)
+  saved : option (option nat * bool * bool);  (* engine._engine_state; None = running *)
+  has_tr : bool;                              (* engine._transport is not None (None until start()) *)
+  rd_paused : bool                            (* not transport._reading *)
 }.
 
 Inductive outcome := Done | BodyRaised | RuntimeErr | Handled (h : nat) | Dropped.
@@ -20,15 +23,15 @@ Inductive outcome := Done | BodyRaised | RuntimeErr | Handled (h : nat) | Droppe
 Definition pause (e : eng) : eng * bool :=
   match saved e with
   | Some _ => (e, false)
-  | None => (mkEng None true true true (Some (handler e, sending_off e, disc_off e)), true)
+  | None => (mkEng None true true true (Some (handler e, sending_off e, disc_off e)) (has_tr e) (if has_tr e then true else rd_paused e), true)
   end.
 
 (* Gateway._resume + Engine._resume: refuse when not paused, else restore; writing is resumed only when
-   sending is enabled *)
+   sending is enabled, reading whenever there is a transport *)
 Definition resume (e : eng) : eng * bool :=
   match saved e with
   | None => (e, false)
-  | Some (h, s, d) => (mkEng h s d (if s then wr_paused e else false) None, true)
+  | Some (h, s, d) => (mkEng h s d (if s then wr_paused e else false) None (has_tr e) (if has_tr e then false else rd_paused e), true)
   end.
 
 (* `guarded` = the body runs inside try/finally (the tree as it is now); without it an exception in the
@@ -43,14 +46,15 @@ Inductive op :=
   | GetState (body_raises : bool)     (* Gateway.get_state(); the body is _get_state() *)
   | Restore (body_raises : bool)      (* Gateway._restore_cached_packets(); the body is the temporary protocol/transport *)
   | Pause | Resume                    (* a client pausing/resuming the engine itself *)
-  | Rx.                               (* a packet arrives at the protocol *)
+  | Rx.                               (* the next packet of the transport's source *)
 
 Definition step (guarded : bool) (e : eng) (o : op) : eng * outcome :=
   match o with
   | GetState b | Restore b => bracket guarded e b
   | Pause => let '(e1, ok) := pause e in (e1, if ok then Done else RuntimeErr)
   | Resume => let '(e1, ok) := resume e in (e1, if ok then Done else RuntimeErr)
-  | Rx => (e, match handler e with Some h => Handled h | None => Dropped end)
+  | Rx => (e, if has_tr e && rd_paused e then Dropped       (* not taken from the source while reading is paused *)
+              else match handler e with Some h => Handled h | None => Dropped end)
   end.
 
 Fixpoint run (guarded : bool) (e : eng) (ops : list op) : eng * list outcome :=
@@ -59,8 +63,8 @@ Fixpoint run (guarded : bool) (e : eng) (ops : list op) : eng * list outcome :=
   | o :: rest => let '(e1, x) := step guarded e o in let '(e2, xs) := run guarded e1 rest in (e2, x :: xs)
   end.
 
-(* a gateway that is up: not paused, and the writing flag agrees with the sending switch (a read-only
-   protocol is created with writing paused; a writeable one with writing enabled) *)
-Definition up (e : eng) : Prop := saved e = None /\ wr_paused e = sending_off e.
+(* a gateway that is up: not paused, the writing flag agrees with the sending switch (a read-only
+   protocol is created with writing paused; a writeable one with writing enabled), and the transport reads *)
+Definition up (e : eng) : Prop := saved e = None /\ wr_paused e = sending_off e /\ rd_paused e = false.
 
 Definition snapshot_op (o : op) : bool := match o with GetState _ | Restore _ => true | _ => false end.
